@@ -358,6 +358,7 @@ def objscan(chk):
 META_EXTRA = "Pointer-formation obligations and counting-loop reachability extend BOUND; SLOTS-U (range writes into the strings' inline buffers stay at or below capacity()); INIT covers aggregate state of nested layouts."
 META = (META[0] + " " + META_EXTRA, META[1])
 META = (META[0] + ' SHIFT (shift counts below the promoted operand width, symbolic type width).', META[1])
+META = (META[0] + ' IT1 (no dereference of a scan cursor without a dominating end test) and PTRCOUNT (pointer parameters indexed strictly below the count) over algorithms, char_traits and C-string helpers.', META[1])
 
 
 def run(chk, tier):
